@@ -60,11 +60,30 @@ def run_case(ctx, name, obj, cfg):
         def call():
             from skops.cli.entrypoint import main_cli
 
+            # an earlier CLI call in the same process (other flags, another file) must not change what this one logs or writes
+            for pre in cfg.get("before") or []:
+                try:
+                    main_cli(pre)
+                except BaseException:
+                    pass
             argv = ["convert", in_arg] + (["-o", arg] if arg is not None else []) + ["-v"] * cfg["verbosity"]
             main_cli(argv)
 
+        pre_marker = None
+        if cfg.get("before"):
+            # the earlier calls work on their own pickle, written where the sandbox snapshot ignores nothing: account for it
+            (sb.root / "abs" / "earlier.pkl").write_bytes(pickle.dumps({"earlier": [1, 2]}))
+            before = sb.snapshot()
         code, res = fscheck.traced_call(sb, call, w, sb.systmp, capture_logs=True)
         after = sb.snapshot()
+        if cfg.get("before"):
+            # what the earlier calls themselves wrote or logged is not judged here
+            for k in list(after["files"]):
+                if k[-1].startswith("earlier"):
+                    after["files"].pop(k, None)
+                    before["files"].pop(k, None)
+            res = dict(res or {}, logs=[l for l in (res or {}).get("logs", []) if "earlier" not in l[1]],
+                       events=[e for e in (res or {}).get("events", []) if not any("earlier" in str(x) for x in e)])
         out["n"] = 1
         rep = dict(kind="convert", object=name, repr=repr(obj)[:400], config=cfg, output_arg=arg)
         if res is None or "child_error" in res:
@@ -167,7 +186,7 @@ def run(ctx):
     objects = [(n, o) for n, o in zoo() if n not in ("method",)]
     import numpy as _np
 
-    objects += [("none-key", {None: 1, "a": [type(None), {None: None}]}), ("method-wrapper", [1, {"k": _np.float64(1.5).__add__}]), ("enum-member", {"c": U.Color.RED, "l": [U.Color.RED]}), ("user-plain", U.Plain(1, [2, {"k": (3, 4)}])), ("user-nested", {"a": [U.Plain(1, 2), U.WithGetstate(3)]}),
+    objects += [("none-key", {None: 1, "a": [type(None), {None: None}]}), ("method-wrapper", [1, {"k": _np.float64(1.5).__add__}]), ("enum-member", {"c": U.Color.RED, "l": [U.Color.RED]}), ("non-ascii-classes", [U.Modèle(1), {"k": getattr(U, "模型")(3)}, U.Plain(1, 2)]), ("user-plain", U.Plain(1, [2, {"k": (3, 4)}])), ("user-nested", {"a": [U.Plain(1, 2), U.WithGetstate(3)]}),
                 ("user-slots", U.WithSlots(1, 2)), ("unpersistable-generator-attr", U.Plain(1, memoryview(b"ab")) if False else U.Plain(1, {1: "a", "1": "b"})),
                 ("unpersistable-dok", __import__("scipy.sparse", fromlist=["x"]).dok_matrix((2, 2))),
                 ("unpersistable-deep", [1, {"k": [U.RaisesGetstate()]}] if _picklable(U.RaisesGetstate()) else [1, {"k": {1: 0, "1": 1}}])]
@@ -180,6 +199,10 @@ def run(ctx):
     for i, (name, obj) in enumerate(objects):
         cfg = dict(output=OUTPUTS[i % len(OUTPUTS)] if i < 40 else r.choice(OUTPUTS), verbosity=i % 3, dest_exists=(i % 2 == 0),
                    input_name=INPUT_NAMES[i % len(INPUT_NAMES)], input_dir="cwd" if i % 4 else "elsewhere")
+        if i % 5 == 3:
+            earlier = str(Path_(i))
+            cfg["before"] = r.choice([[["convert", "-q", earlier]], [["convert", "-vv", earlier]], [["update", "-q", earlier]],
+                                      [["convert", "--quiet", earlier], ["update", earlier]], [["convert", earlier, "-o", "earlier.skops"]]])
         try:
             res = run_case(ctx, name, obj, cfg)
         except Exception as ex:
@@ -207,6 +230,10 @@ def run(ctx):
         samples=samples, config_histogram=hist, correspondence_mismatches=len(mism), wall=round(time.time() - t0, 1))
     ctx.assumptions += ["pickle.load of the harness's own pickles is the reference ('equal to the unpickled one')",
                         "`-o ''` is treated like an absent option by the CLI and is not generated"]
+
+
+def Path_(i):
+    return "../abs/earlier.pkl"
 
 
 def _picklable(o):
